@@ -115,7 +115,7 @@ class Session:
             self.trusted.append(text)
 
     # ------------------------------------------------------------------ VC generation
-    def contract(self, name, fn, run, expected_exceptions=(), raises_ok=None, replay=None, shape=None, max_paths=5000, feas_timeout_ms=5000, min_paths=1):
+    def contract(self, name, fn, run, expected_exceptions=(), raises_ok=None, replay=None, shape=None, max_paths=5000, feas_timeout_ms=5000, min_paths=1, assume_safety=None):
         """Explore `run(ctx)` over all feasible paths, harvest obligations.
 
         raises_ok: None -> any path ending in an expected exception is an obligation
@@ -124,12 +124,16 @@ class Session:
         """
         st = ExploreStats()
         paths = 0
+        n_assumed = 0
         names = set()
         try:
             for p in explore(run, expected_exceptions=expected_exceptions, max_paths=max_paths, feas_timeout_ms=feas_timeout_ms, stats=st):
                 paths += 1
                 ctx = p.ctx
                 for k, s in enumerate(ctx.safety):
+                    if assume_safety:
+                        n_assumed += 1
+                        continue
                     self._add(name, fn, "safety", p, "%s#%d" % (s["kind"], k), ctx.hyps(s["pc"]), s["cond"], shape, spec=s.get("spec", False))
                 for o in ctx.obligations:
                     self._add(name, fn, o["kind"], p, o["name"], ctx.hyps(o["pc"]), o["cond"], shape)
@@ -152,6 +156,8 @@ class Session:
         self.stats[name] = dict(paths=paths, pruned=st.pruned, feasibility_queries=st.feas_queries, feasibility_unknown=st.feas_unknown, explore_s=round(st.wall, 3))
         if paths < min_paths and not any(name in u for u in self.undecided + self.crashes):
             self.crashes.append("%s: only %d feasible path(s) (vacuous precondition?)" % (name, paths))
+        if assume_safety:
+            self.assume("%s: %d division/domain side conditions are ASSUMED as preconditions, not proved (%s)" % (name, n_assumed, assume_safety))
         if replay is not None:
             self.replayers[name] = replay
         return names
